@@ -99,6 +99,7 @@ func emitSeqCase(r *h.Run, sc seqScenario, obs []opObs) {
 	if sc.Kind == "immutable" {
 		kind = "Immutable"
 	}
-	// the model mirrors the repaired code: deferred unlock registered after acquiring (false), re-hash on mismatch (true)
-	r.Case(fmt.Sprintf("(mkCase %s %s false true %s)", kind, h.List(more), h.List(ops)), sc)
+	// the model's flags (deferred unlock after acquiring, re-hash of the source on mismatch) are not supplied here: the
+	// model reads them from coq/C16/Gen.v, generated from the source on every run
+	r.Case(fmt.Sprintf("(mkCase %s %s %s)", kind, h.List(more), h.List(ops)), sc)
 }
